@@ -54,7 +54,10 @@ type preq struct {
 	certID  int  // certificate the target presents in this setup (>=1)
 	postOK  bool // rest of the setup (user authorisation, tube creation) succeeds
 	reply   replyMode
-	delay   time.Duration // slow-target class: the scripted target waits this long before it answers / closes
+	// text of every refusal in this request: the error of the approval callback, the reason in the scripted
+	// target's Intent Denied (at most 255 bytes fit its one-byte length), e2e: the errors of the target's callbacks
+	reason string
+	delay  time.Duration // slow-target class: the scripted target waits this long before it answers / closes
 	// e2e only: scripted target-side callbacks
 	tcheck, tadd bool
 }
@@ -270,7 +273,7 @@ func runPrincipal(reqs []preq, e2e bool, tcp bool) *prun {
 		ok := reqs[k].approve
 		lg.add(event{kind: evCb, in: fromIntent(&i), cert: id, ok: ok})
 		if !ok {
-			return errors.New("not going to approve that")
+			return errors.New(reqs[k].reason)
 		}
 		return nil
 	}
@@ -317,7 +320,7 @@ func runPrincipal(reqs []preq, e2e bool, tcp bool) *prun {
 				}
 				lg.add(event{kind: evTCheck, in: fromIntent(&i), cert: id, ok: reqs[kk].tcheck})
 				if !reqs[kk].tcheck {
-					return errors.New("target policy says no")
+					return errors.New(reqs[kk].reason)
 				}
 				return nil
 			}
@@ -325,7 +328,7 @@ func runPrincipal(reqs []preq, e2e bool, tcp bool) *prun {
 				kk := int(atomic.LoadInt32(&cur))
 				lg.add(event{kind: evTAdd, in: fromIntent(i), ok: reqs[kk].tadd})
 				if !reqs[kk].tadd {
-					return errors.New("could not store the grant")
+					return errors.New(reqs[kk].reason)
 				}
 				pmu.Lock()
 				res.stored = append(res.stored, fromIntent(i))
@@ -452,7 +455,11 @@ func scriptedTarget(c net.Conn, reqs []preq, cur *int32, res *prun, mu *sync.Mut
 		case rConfirm:
 			c.Write([]byte{3})
 		case rDeny:
-			c.Write(append([]byte{4, 14}, []byte("target says so")...))
+			rs := reqs[k].reason
+			if len(rs) > 255 {
+				rs = rs[:255]
+			}
+			c.Write(append([]byte{4, byte(len(rs))}, []byte(rs)...))
 		case rGarbageUnknown:
 			c.Write([]byte{9})
 		case rGarbageEcho:
@@ -474,6 +481,7 @@ type tmsg struct {
 	in          wi
 	bad         int // 0 well-formed communication; 1 wrong message type (an intent *request*); 2 truncated
 	check, addk bool
+	reason      string // error text of a refusing checkIntent / addAuthGrant
 }
 
 type trun struct {
@@ -501,7 +509,7 @@ func runTarget(msgs []tmsg) *trun {
 		}
 		lg.add(event{kind: evTCheck, in: fromIntent(&i), cert: id, ok: msgs[k].check})
 		if !msgs[k].check {
-			return errors.New("no")
+			return errors.New(msgs[k].reason)
 		}
 		return nil
 	}
@@ -509,7 +517,7 @@ func runTarget(msgs []tmsg) *trun {
 		k := int(atomic.LoadInt32(&cur))
 		lg.add(event{kind: evTAdd, in: fromIntent(i), ok: msgs[k].addk})
 		if !msgs[k].addk {
-			return errors.New("cannot store")
+			return errors.New(msgs[k].reason)
 		}
 		mu.Lock()
 		res.stored = append(res.stored, fromIntent(i))
